@@ -435,6 +435,7 @@ func subReadResults() mon.Sub {
 		},
 		Do: func(c *mon.C) {
 			var hs []held
+			var recycled []wsutil.Message
 			n := 3 + c.Rng.Intn(12)
 			for i := 0; i < n; i++ {
 				c.Count(1)
@@ -488,7 +489,7 @@ func subReadResults() mon.Sub {
 					}
 					hs = append(hs, held{what: "ClosedError.Reason", get: func() string { return ce.Reason }, want: reason})
 				case 1: // ReadMessage: 1-5 intermediate pings / pongs (different payloads) over 2-4 fragments + the message
-					nfrag := 2 + k/7%3
+					nfrag := 1 + k/7%4 // (1: an unfragmented message, no control frames in between)
 					var st1 []byte
 					var ctlWant []string
 					enc := func(f ref.Frame) {
@@ -525,21 +526,32 @@ func subReadResults() mon.Sub {
 							enc(ref.Frame{H: ref.Header{Fin: true, Op: cop}, Payload: []byte(p)})
 						}
 					}
-					ms, err := wsutil.ReadMessage(xport.NewChunker(st1, plans[k%len(plans)]), stateOf(side), nil)
+					// the read loop of an application: the slice of the call before is handed back as ms[:0] (the Message
+					// structs are the caller's to recycle - the payloads it still holds are not the library's to reuse)
+					var into []wsutil.Message
+					if k%3 != 0 {
+						into = recycled[:0]
+					}
+					ms, err := wsutil.ReadMessage(xport.NewChunker(st1, plans[k%len(plans)]), stateOf(side), into)
+					recycled = ms
 					if err != nil || len(ms) != len(ctlWant)+1 {
 						c.Fail("harness/readmessage", fmt.Sprintf("ReadMessage failed: %v (%d messages, %d control frames sent)", err, len(ms), len(ctlWant)), nil)
 						return
 					}
 					for ci := range ctlWant {
-						ci := ci
-						hs = append(hs, held{what: fmt.Sprintf("ReadMessage control payload #%d of %d", ci, len(ctlWant)), get: func() string { return string(ms[ci].Payload) }, want: ctlWant[ci]})
+						pl := ms[ci].Payload
+						hs = append(hs, held{what: fmt.Sprintf("ReadMessage control payload #%d of %d", ci, len(ctlWant)), get: func() string { return string(pl) }, want: ctlWant[ci]})
 					}
-					hs = append(hs, held{what: "ReadMessage payload", get: func() string { return string(ms[len(ctlWant)].Payload) }, want: string(payload)})
+					mpl := ms[len(ctlWant)].Payload
+					hs = append(hs, held{what: fmt.Sprintf("ReadMessage payload (%d fragments, slice recycled: %v)", nfrag, into != nil), get: func() string { return string(mpl) }, want: string(payload)})
 					if !recheck(c, hs, "ReadMessage returned") {
 						return
 					}
 					// the application answers the control message it was handed (and keeps it): the
 					// reply is a pong echoing the payload, the message it holds stays what it was
+					if len(ctlWant) == 0 {
+						break // (an unfragmented message: no control frame was collected)
+					}
 					var reply bytes.Buffer
 					switch k / 2 % 3 {
 					case 0:
